@@ -261,6 +261,86 @@ let handle line =
            (z_of_int
               (int_of_nat
                  (crash_category (if before then None else Some (nat_of_int n)) (nat_of_int len)))))
+  | "SR" ->
+      (* SR limit nops (F bytes | E | R)*: stream reader schedule; prints the completed reads *)
+      let limit = nat_of_int (next_int c) in
+      let nops = next_int c in
+      let rec ops i acc =
+        if i = 0 then List.rev acc
+        else
+          let o = match next c with
+            | "F" -> SFeed (next_str c)
+            | "E" -> SEof
+            | "R" -> SRead
+            | x -> failwith ("bad stream op " ^ x) in
+          ops (i - 1) (o :: acc) in
+      let ol = ops nops [] in
+      let (res, _) = srun limit { r_buf = []; r_eof = false } ol in
+      let show_res = function
+        | RLine s -> lit_ "L" @ List.concat (List.map (fun cp -> lit_ " " @ str_of_Z (Z.of_N cp)) s)
+        | RReadError _ -> lit_ "RE"
+        | RFailed -> lit_ "RF"
+        | RNotConnected -> lit_ "NC" in
+      print_str (List.concat (List.map (fun r -> show_res r @ lit_ "|") res))
+  | "MQW" ->
+      let pre = next_str c in
+      let line = next_str c in
+      (match to_mqtt pre line with
+       | None -> print_str (lit_ "ERR")
+       | Some ((topic, payload), qos) ->
+           print_str (str_of_Z qos @ lit_ "|" @ str_of_Z (Z.of_nat (nat_of_int (List.length topic))) @ lit_ "|" @ topic @ payload))
+  | "MQR" ->
+      let topic = next_str c in
+      let payload = next_str c in
+      print_str (of_mqtt topic payload)
+  | "MQM" ->
+      let f = next_str c in
+      let t = next_str c in
+      print_str (lit_ (if filter_matches f t then "1" else "0"))
+  | "MQS" ->
+      let pre = next_str c in
+      print_str (List.concat (List.map (fun (t, q) -> t @ lit_ " " @ str_of_Z q @ lit_ "|") (subscriptions pre)))
+  | "MQL" ->
+      let nev = next_int c in
+      let rec evs i acc =
+        if i = 0 then List.rev acc
+        else
+          let e = match next c with
+            | "M" -> let t = next_str c in let p = next_str c in BMsg (t, p)
+            | "E" -> BError
+            | x -> failwith ("bad broker event " ^ x) in
+          evs (i - 1) (e :: acc) in
+      let show_e = function
+        | QLine l -> lit_ "L " @ str_of_Z (Z.of_nat (nat_of_int (List.length l))) @ lit_ ":" @ l
+        | QReadError -> lit_ "RE"
+        | QFailed -> lit_ "RF" in
+      print_str (List.concat (List.map (fun e -> show_e e @ lit_ "|") (receive_loop (evs nev []))))
+  | "LC" ->
+      (* LC guarded v nchoices (M ok | S | T | U)*: lifecycle schedule *)
+      let guarded = next_bool c in
+      let v = nat_of_int (next_int c) in
+      let n = next_int c in
+      let rec chs i acc =
+        if i = 0 then List.rev acc
+        else
+          let ch = match next c with
+            | "M" -> CMain (next_bool c)
+            | "S" -> CSaver
+            | "T" -> CTimer
+            | "U" -> CMutate
+            | x -> failwith ("bad choice " ^ x) in
+          chs (i - 1) (ch :: acc) in
+      let s = lrun guarded (linit v) (chs n []) in
+      let rec int_of_nat = function O -> 0 | S k -> 1 + int_of_nat k in
+      let m = match s.l_m with MLoad -> "load" | MStart -> "start" | MConnect -> "connect" | MBody -> "body"
+        | MDisconnect -> "disconnect" | MCancel -> "cancel" | MAwait -> "await" | MFinal _ -> "final" | MDone -> "done" in
+      let sp = match s.l_s with SNone -> "none" | SCreated -> "created" | SSaving (_, _) -> "saving" | SSleeping -> "sleeping"
+        | SEnded true -> "cancelled" | SEnded false -> "finished" in
+      let f = match s.l_file with FHolds k -> string_of_int (int_of_nat k) | FPartial -> "partial" in
+      let e = match s.l_exc with None -> "none" | Some EConnect -> "connect" | Some EBody -> "body"
+        | Some EDisconnect -> "disconnect" | Some ECancelled -> "cancelled" in
+      print_str (lit_ (Printf.sprintf "%s %s file=%s reg=%d disc=%d exc=%s saves=%d" m sp f (int_of_nat s.l_reg)
+                         (int_of_nat s.l_disc) e (int_of_nat s.l_saves)))
   | "FL" ->
       (* FL guarded nops (S n c t tag | W n | B | E ok)* nnodes node* : run the flush/send
          race model, then quiesce; print written / buffer / sent as "n c t tag" groups *)
